@@ -21,7 +21,7 @@ def op? : String → Option Op
   | "revoke" => some .revoke | "revokemtls" => some .revokeMTLS
   | "sshsign" => some .sshSign | "sshrenew" => some .sshRenew | "sshrekey" => some .sshRekey
   | "sshrevoke" => some .sshRevoke | "acme" => some .acmeFinalize | "scep" => some .scepEnroll
-  | "sshsignfull" => some .sshSignFull
+  | "sshsignfull" => some .sshSignFull | "sshsignk8s" => some .sshSignReusable
   | _ => none
 
 def outcome? : String → Option Outcome
@@ -48,7 +48,7 @@ def trace (l : List Ev) : String :=
   if l.isEmpty then "-" else ",".intercalate (l.map fun ev => ev.kind.str ++ ":" ++ ev.out.str)
 
 def ctlOf : Op → CertT
-  | .sshSign | .sshRenew | .sshRekey | .sshRevoke | .sshSignFull => .ssh
+  | .sshSign | .sshRenew | .sshRekey | .sshRevoke | .sshSignFull | .sshSignReusable => .ssh
   | _ => .x509
 
 def whOf (t : String) (ctl : CertT) : CertT :=
